@@ -131,9 +131,9 @@ theorem propnSet_eq (d : DT) (n : Int) (v : Val) (hw : wellTyped d v = true) :
   propnSet_eq_aux d n v hw
 
 /-- `Array._create_element`. -/
-theorem createElement_eq (d : DT) (n : Int) (v : Val) (hw : wellTyped d v = true) (hd : d ≠ .bytes) :
+theorem createElement_eq (d : DT) (n : Int) (v : Val) (hw : wellTyped d v = true) :
     createElement d n v = if valid d (some n) v = true then .ok (encode d (some n) v) else .error .value :=
-  createElement_eq_aux d n v hw hd
+  createElement_eq_aux d n v hw
 
 /-- `ok_length`: whatever these routes return has exactly the requested number of bits. -/
 theorem ok_length (d : DT) (n : Int) (v : Val) (hw : wellTyped d v = true) (b : Bits)
@@ -164,21 +164,34 @@ theorem kwnRoute_eq (d : DT) (n : Int) (v : Val) (hw : wellTyped d v = true) :
     kwnRoute d n v = if valid d (some n) v = true then .ok (encode d (some n) v) else .error .value :=
   kwnRoute_eq_aux d n v hw
 
-/-- Plain property assignment `a.<name> = v`: the classification at the object's own length — except for
-    endian integers on an object that is not whole bytes (finding `prop_endian_not_whole_bytes`). -/
-theorem propSet_eq_partial (d : DT) (cur : Bits) (v : Val) (hw : wellTyped d v = true)
-    (hreg : propEndianNotWhole d cur = false) :
+/-- Plain property assignment `a.<name> = v`: the classification at the object's own length (for the int and
+    float setters; byte-order integers need a whole-byte object since /repo bf99409), no length for the rest. -/
+theorem propSet_eq (d : DT) (cur : Bits) (v : Val) (hw : wellTyped d v = true) :
     propSet d cur v =
       if valid d (effLen d cur) v = true then .ok (encode d (effLen d cur) v) else .error .value :=
-  propSet_eq_partial_aux d cur v hw hreg
+  propSet_eq_aux d cur v hw
 
-/-- Known deviation: `a = BitArray(12); a.uintle = 5` succeeds and leaves 16 bits; `a.uintbe = 5` leaves a
-    12-bit "big-endian whole-byte" integer. -/
-theorem propSet_deviates :
-    propSet .uintle (List.replicate 12 false) (.int 5) = .ok (natToBits 8 80 ++ natToBits 8 0) ∧
-    propSet .uintbe (List.replicate 12 false) (.int 5) = .ok (natToBits 12 5) ∧
-    valid .uintle (effLen .uintle (List.replicate 12 false)) (.int 5) = false ∧
-    valid .uintbe (effLen .uintbe (List.replicate 12 false)) (.int 5) = false := by decide
+/-- `encode_ok_iff_valid`, route by route: each of the eight routes succeeds with bits `b` iff the triple is valid
+    and `b` is its encoding. -/
+theorem encode_ok_iff_valid (d : DT) (len : Option Int) (n : Int) (cur : Bits) (v : Val) (b : Bits)
+    (hw : wellTyped d v = true) (hd : d ≠ .bytes) :
+    (build d len v = .ok b ↔ (valid d len v = true ∧ b = encode d len v)) ∧
+    (fromToken d len v = .ok b ↔ (valid d len v = true ∧ b = encode d len v)) ∧
+    (packRoute d len v = .ok b ↔ (valid d len v = true ∧ b = encode d len v)) ∧
+    (kwRoute d v len none = .ok b ↔ (valid d len v = true ∧ b = encode d len v)) ∧
+    (kwnRoute d n v = .ok b ↔ (valid d (some n) v = true ∧ b = encode d (some n) v)) ∧
+    (propnSet d n v = .ok b ↔ (valid d (some n) v = true ∧ b = encode d (some n) v)) ∧
+    (createElement d n v = .ok b ↔ (valid d (some n) v = true ∧ b = encode d (some n) v)) ∧
+    (propSet d cur v = .ok b ↔ (valid d (effLen d cur) v = true ∧ b = encode d (effLen d cur) v)) := by
+  have key : ∀ (c : Bool) (e : Bits),
+      ((if c = true then (Except.ok e : Except Err Bits) else .error .value) = .ok b ↔ (c = true ∧ b = e)) := by
+    intro c e
+    cases c with
+    | true => simp [eq_comm]
+    | false => simp
+  rw [build_eq d len v hw, fromToken_eq d len v hw, packRoute_eq d len v hw, kwRoute_eq d len v hw hd,
+    kwnRoute_eq d n v hw, propnSet_eq d n v hw, createElement_eq d n v hw, propSet_eq d cur v hw]
+  exact ⟨key _ _, key _ _, key _ _, key _ _, key _ _, key _ _, key _ _, key _ _⟩
 
 /-! ### "… and neither creates nor changes anything" -/
 
@@ -196,30 +209,34 @@ theorem accepted_assignment (d : DT) (n : Int) (cur : Bits) (v : Val) (hw : well
 /-- A rejected Array element assignment (bad value or bad index) leaves the data unchanged. -/
 theorem arrSet_rejected_no_change (d : DT) (n : Nat) (data : Bits) (key : Int) (v : Val)
     (h : (arrSet d n data key v).err ≠ none) : (arrSet d n data key v).bits = data := by
-  unfold arrSet at *
-  by_cases hk : (if key < 0 then key + (data.length : Int) / n else key) < 0 ∨
-      (if key < 0 then key + (data.length : Int) / n else key) ≥ (data.length : Int) / n
-  · simp only [hk, if_true]
-  · simp only [hk, if_false] at h ⊢
+  unfold arrSet at h ⊢
+  simp only at h ⊢
+  generalize (if key < 0 then key + (data.length : Int) / ((n * (defOf d).mult : Nat) : Int) else key) = k at h ⊢
+  by_cases hk : k < 0 ∨ k ≥ (data.length : Int) / ((n * (defOf d).mult : Nat) : Int)
+  · rw [if_pos hk]
+  · rw [if_neg hk] at h ⊢
     cases hc : createElement d n v with
     | error e => rfl
-    | ok b => simp only [hc] at h; exact absurd rfl h
+    | ok b => rw [hc] at h; exact absurd rfl h
 
-/-- Rejection happens exactly for an index outside the array or a value that does not fit the item type. -/
-theorem arrSet_err_iff (d : DT) (n : Nat) (data : Bits) (key : Int) (v : Val)
-    (hw : wellTyped d v = true) (hd : d ≠ .bytes) :
+/-- Rejection happens exactly for an index outside the array or a value that does not fit the item type
+    (`w = n · multiplier` bits per item). -/
+theorem arrSet_err_iff (d : DT) (n : Nat) (data : Bits) (key : Int) (v : Val) (hw : wellTyped d v = true) :
     (arrSet d n data key v).err ≠ none ↔
-      (¬ (-(data.length / n : Int) ≤ key ∧ key < (data.length / n : Int)) ∨ valid d (some n) v = false) :=
-  arrSet_err_iff_aux d n data key v hw hd
+      (¬ (-(data.length / (n * (defOf d).mult : Nat) : Int) ≤ key ∧ key < (data.length / (n * (defOf d).mult : Nat) : Int))
+        ∨ valid d (some n) v = false) :=
+  arrSet_err_iff_aux d n data key v hw
 
 /-- An accepted element assignment changes item `k` only: same total length, same bits before and after. -/
 theorem arrSet_ok_frame (d : DT) (n : Nat) (data : Bits) (key : Int) (v : Val)
-    (hw : wellTyped d v = true) (hd : d ≠ .bytes) (hn : 0 < n)
+    (hw : wellTyped d v = true) (hn : 0 < n)
     (h : (arrSet d n data key v).err = none) :
-    ∃ k : Nat, (k : Int) = (if key < 0 then key + (data.length / n : Int) else key) ∧ k < data.length / n ∧
-      (arrSet d n data key v).bits = data.take (n * k) ++ encode d (some n) v ++ data.drop (n * k + n) ∧
+    ∃ k : Nat, (k : Int) = (if key < 0 then key + (data.length / (n * (defOf d).mult : Nat) : Int) else key) ∧
+      k < data.length / (n * (defOf d).mult) ∧
+      (arrSet d n data key v).bits = data.take (n * (defOf d).mult * k) ++ encode d (some n) v
+        ++ data.drop (n * (defOf d).mult * k + n * (defOf d).mult) ∧
       (arrSet d n data key v).bits.length = data.length :=
-  arrSet_ok_frame_aux d n data key v hw hd hn h
+  arrSet_ok_frame_aux d n data key v hw hn h
 
 /-! ### non-vacuity: the hypotheses are satisfiable by concrete, non-trivial values -/
 
@@ -235,7 +252,8 @@ example : valid .hex (some 8) (.str "0xfF".toList) = true ∧ valid .hex (some 8
     valid .bool (some 2) (.int 1) = false ∧ valid .ue (some 3) (.int 1) = false ∧ valid .ue none (.int 1) = true := by decide
 example : kwRoute .hex (.str "ff".toList) (some 4) none = .error .value ∧
     kwRoute .hex (.str "ff".toList) (some 8) none = .ok (natToBits 8 255) ∧
-    propEndianNotWhole .uintbe (List.replicate 16 true) = false ∧
+    propSet .uintle (List.replicate 12 false) (.int 5) = .error .value ∧
+    propSet .uintle (List.replicate 16 false) (.int 5) = .ok (natToBits 8 5 ++ natToBits 8 0) ∧
     (assign .uint none [true, false, true] (.int 9)).err ≠ none ∧
     (assign .uint none [true, false, true] (.int 9)).bits = [true, false, true] ∧
     (arrSet .uint 4 (natToBits 12 0xabc) (-1) (.int 16)).err ≠ none ∧
